@@ -1,6 +1,7 @@
 ------------------------------ MODULE SweepsMC ------------------------------
 (***************************************************************************)
-(* Design check for C09 / C10: the sweep schedules of dmrg_ and tdvp_      *)
+(* Design check for C09 / C10 / C06: sweep schedules of dmrg_, tdvp_ and   *)
+(* compression_                                                            *)
 (* (_dmrg_sweep_1site_, _dmrg_sweep_2site_, _tdvp_sweep_1site_,            *)
 (* _tdvp_sweep_2site_, _tdvp_sweep_12site_) written as the exact event     *)
 (* sequences the code produces on the environment cache and on the sites,  *)
@@ -14,7 +15,7 @@ EXTENDS Sweeps
 CONSTANTS NMax, Sweeps
 VARIABLES N, method, pre, dec, done, s, budget
 vars == <<N, method, pre, dec, done, s, budget>>
-Init == /\ N \in 2..NMax /\ method \in {"dmrg1", "dmrg2", "tdvp1", "tdvp2", "tdvp12"} /\ pre \in BOOLEAN
+Init == /\ N \in 2..NMax /\ method \in {"dmrg1", "dmrg2", "tdvp1", "tdvp2", "tdvp12", "comp1", "comp2"} /\ pre \in BOOLEAN
         /\ dec = <<>> /\ done = FALSE /\ s = Init0(2) /\ budget = <<>>
 Go == /\ ~done /\ done' = TRUE /\ UNCHANGED <<N, method, pre>>
       /\ dec' \in IF method = "tdvp12" THEN [1..(2 * N) -> BOOLEAN] ELSE {<<>>}
